@@ -356,7 +356,7 @@ def name_tags(name, prefix="name"):
     if name[:1] == "_":
         tags.append(prefix + ".leading_underscore")
     for ch, label in (('"', "dquote"), ("'", "squote"), (".", "dot"), ("\n", "newline"),
-                      ("\\", "backslash"), (" ", "space")):
+                      ("\\", "backslash"), (" ", "space"), ("\t", "tab"), ("\r", "cr")):
         if ch in name:
             tags.append(prefix + "." + label)
     if name and name[:1].isascii() and name[:1].isalpha() and not name[:1].isupper():
